@@ -52,7 +52,10 @@ var ctorNames = [...]string{"APIMakeGet", "APIMakeDelete", "APIMakePostJSONBody"
 	"APIMakePostMultipartBody", "APIMakePutMultipartBody", "APIMakePatchMultipartBody",
 	"APIMakeDoNewRequest", "APIMakeDoNewRequestWithBodySerializer", "APIMakeDoNewRequestWithMultipartSerializer"}
 
-var verbs = []string{http.MethodGet, http.MethodHead, http.MethodOptions, http.MethodDelete, http.MethodPost, http.MethodPut, http.MethodPatch}
+// the generic constructors take any method token: the request's method is the one the constructor names,
+// as it was written (extension methods, lower or mixed case)
+var verbs = []string{http.MethodGet, http.MethodHead, http.MethodOptions, http.MethodDelete, http.MethodPost, http.MethodPut, http.MethodPatch,
+	"PURGE", "Purge", "link", "M-SEARCH"}
 
 func (c *apiCase) wantMethod() string {
 	switch c.Ctor {
@@ -199,6 +202,9 @@ type respSpec struct {
 	// ErrKind (transport fault): which error the transport reports (index into transportErrs): whatever it
 	// is, the evaluation has sent its one request and the error comes back as Err
 	ErrKind int `json:"errKind,omitempty"`
+	// Status: the response's status code (0 = 200). The body is decoded into the target whatever the status
+	// (2xx, 4xx, 5xx; redirects are not generated: the client would follow them)
+	Status int `json:"status,omitempty"`
 }
 
 var transportErrs = []error{errTransport, io.EOF, io.ErrUnexpectedEOF, fmt.Errorf("c17: read tcp 10.0.0.1:443: %w", io.EOF),
@@ -408,7 +414,11 @@ func (s *stubRT) RoundTrip(req *http.Request) (*http.Response, error) {
 	if spec.Announce {
 		contentLength = int64(len(spec.Body))
 	}
-	return &http.Response{Status: "200 OK", StatusCode: 200, Proto: "HTTP/1.1", ProtoMajor: 1, ProtoMinor: 1,
+	status := spec.Status
+	if status == 0 {
+		status = 200
+	}
+	return &http.Response{Status: fmt.Sprintf("%d %s", status, http.StatusText(status)), StatusCode: status, Proto: "HTTP/1.1", ProtoMajor: 1, ProtoMinor: 1,
 		Header: http.Header{"Content-Type": {"application/json"}}, Body: body, ContentLength: contentLength, Request: req}, nil
 }
 
@@ -1324,6 +1334,7 @@ func genCase(t *rapid.T) *apiCase {
 		}
 		r.Chunk = rapid.SampledFrom([]int{0, 0, 1, 3, 16}).Draw(t, "chunk")
 		r.Announce = rapid.Bool().Draw(t, "announce")
+		r.Status = rapid.SampledFrom([]int{0, 0, 0, 201, 202, 404, 409, 500, 503}).Draw(t, "status")
 		c.Resp = append(c.Resp, r)
 	}
 	return c
